@@ -963,6 +963,8 @@ class Evaluator(object):
                 parts.append(Str(str(v.value)))
             else:
                 pv = self.eval(v.value, env, func)
+                if isinstance(pv, CallV):
+                    pv = pv.rat
                 if isinstance(pv, Rat) and v.format_spec is None and v.conversion == -1 and not getattr(self, 'const_as_float', False):
                     fr = pv.as_fraction()
                     if fr is not None and fr.denominator == 1:
@@ -970,6 +972,13 @@ class Evaluator(object):
                 parts.append(pv)
         if all(isinstance(p, Str) for p in parts):
             return Str(''.join(p.s for p in parts))
+        if len(e.values) == 1 and isinstance(e.values[0], ast.FormattedValue) and isinstance(parts[0], Rat) and e.values[0].format_spec is not None:
+            fs = e.values[0].format_spec
+            if isinstance(fs, ast.JoinedStr) and len(fs.values) == 1 and isinstance(fs.values[0], ast.Constant) and isinstance(fs.values[0].value, str):
+                import re as _re
+                if _re.match(r'^\.\d+[fgeFGE]$', fs.values[0].value):
+                    # a number rendered with a fixed count of decimals / significant digits: float() of it is a rounding
+                    return alg.opaque('fmtnum', (parts[0], fs.values[0].value))
         return alg.opaque('fstring', tuple(argkey(p) for p in parts))
 
     def e_Lambda(self, e, env, func):
@@ -1481,6 +1490,16 @@ class Evaluator(object):
         if mod == 'builtins':
             if short == 'float' and len(a) == 1:
                 if isinstance(a[0], Rat):
+                    fa_ = _single_atom(a[0])
+                    if fa_ is not None and fa_.kind == 'fn' and fa_.name == 'fmtnum' and isinstance(fa_.args[0], Rat):
+                        spec_ = fa_.args[1]
+                        nd_ = int(spec_[1:-1])
+                        if spec_[-1] in 'fF':
+                            return self._round_call([fa_.args[0], C(nd_)], {}, node)
+                        # significant digits, not decimals: a rounding whose granularity follows the magnitude
+                        fn_ = self._stack[-1].qualname if self._stack else '<module>'
+                        self.roundings.append((fn_, None, fa_.args[0], getattr(node, 'lineno', 0)))
+                        return alg.opaque('rndsig', (fa_.args[0], C(nd_)))
                     return a[0]
                 if isinstance(a[0], Str):
                     try:
@@ -1692,7 +1711,7 @@ class Evaluator(object):
             if isinstance(m_, Mat) and ('dtype' in kwargs or len(a) > 1) and m_ is not a[0]:
                 m_.origin = None        # an explicit element type
             return m_
-        if short in ('zeros', 'ones') and a:
+        if short in ('zeros', 'ones', 'empty') and a:
             shp = a[0]
             dims = None
             if isinstance(shp, Tup):
@@ -1701,9 +1720,16 @@ class Evaluator(object):
                 dims = [_const_int(shp)]
             if dims and all(d is not None and d <= 64 for d in dims):
                 fill = C(0 if short == 'zeros' else 1)
+                serial = [0]
+                self._uninit = getattr(self, '_uninit', 0) + 1
+                tag = self._uninit
 
                 def build(ds):
                     if not ds:
+                        if short == 'empty':
+                            # uninitialised memory: every cell is a value of its own that nothing determines
+                            serial[0] += 1
+                            return alg.opaque('uninit', (C(getattr(node, 'lineno', 0)), C(tag), C(serial[0])))
                         return fill
                     return [build(ds[1:]) for _ in range(ds[0])]
                 return Mat(build(dims), dims)
